@@ -114,13 +114,14 @@ structure InvB (c : Cfg) (st : StB) : Prop where
   deadlineGe : ∀ s dl, st.pcB s = .loop → st.deadline s = some dl → st.a.now ≤ dl ∧ st.tbegin s ≤ st.a.now
   hdeadlineEq : ∀ s, (st.bc s).isWait = true → st.hdeadline s = (c.sdTimeout s).map (st.tsd s + ·)
   hdeadlineGe : ∀ s dl, (st.bc s).isWait = true → st.hdeadline s = some dl → st.a.now ≤ dl ∧ st.tsd s ≤ st.a.now
-  /-- the diagnosis while the run is in progress: `_failed_critical` is clear; `_failed_timeout` is set when (and
-      only when) the run leaves its main loop on expiry, before the clean-up — a cancellation delivered
-      during that clean-up overwrites the exit reason, not the diagnosis -/
+  /-- the diagnosis while the run is in progress: `_failed_timeout` (resp. `_failed_critical`) is set when (and
+      only when) the run leaves its main loop on expiry (resp. on a critical failure), before the clean-up — a
+      cancellation delivered during that clean-up overwrites the exit reason, not the diagnosis -/
   diagClear : ∀ s, st.pcB s ≠ .over →
-      st.failC s = false ∧
+      (st.failC s = true → (st.pcB s).exitOf = some .critical ∨ (st.pcB s).exitOf = some .cancelled) ∧
       (st.failT s = true → (st.pcB s).exitOf = some .timeout ∨ (st.pcB s).exitOf = some .cancelled)
   failTSet : ∀ s, (st.pcB s).exitOf = some .timeout → st.failT s = true
+  failCSet : ∀ s, (st.pcB s).exitOf = some .critical → st.failC s = true
   /-- a cancellation is delivered only to a run that was asked to stop -/
   carrivedCreq : ∀ s, st.carrived s = true → st.pcB s ≠ .notBegun
   -- fields added to make the invariant inductive
@@ -688,6 +689,11 @@ theorem invB_exitLoop (c : Cfg) (w : WF c) (st : StB) (s : Nat) (x : Exit) (nb' 
         have := hinv.diagClear s'
         have := hinv.failTSet s'
         inv_close
+      failCSet := by
+        intro s'
+        have := hinv.diagClear s'
+        have := hinv.failCSet s'
+        inv_close
       carrivedCreq := by
         intro s'
         have := hinv.carrivedCreq s'
@@ -976,6 +982,11 @@ theorem invB_cancelArrive (c : Cfg) (w : WF c) (st st' : StB) (s : Nat)
             have := hinv.diagClear s'
             have := hinv.failTSet s'
             inv_close
+          failCSet := by
+            intro s'
+            have := hinv.diagClear s'
+            have := hinv.failCSet s'
+            inv_close
           carrivedCreq := by
             intro s'
             have := hinv.carrivedCreq s'
@@ -1102,6 +1113,11 @@ theorem invB_cancelArrive (c : Cfg) (w : WF c) (st st' : StB) (s : Nat)
             have := hinv.diagClear s'
             have := hinv.failTSet s'
             inv_close
+          failCSet := by
+            intro s'
+            have := hinv.diagClear s'
+            have := hinv.failCSet s'
+            inv_close
           carrivedCreq := by
             intro s'
             have := hinv.carrivedCreq s'
@@ -1202,6 +1218,11 @@ theorem invB_cancelArrive (c : Cfg) (w : WF c) (st st' : StB) (s : Nat)
             intro s'
             have := hinv.diagClear s'
             have := hinv.failTSet s'
+            inv_close
+          failCSet := by
+            intro s'
+            have := hinv.diagClear s'
+            have := hinv.failCSet s'
             inv_close
           carrivedCreq := by
             intro s'
@@ -1391,6 +1412,12 @@ theorem invB_begin (c : Cfg) (w : WF c) (st : StB) (s : Nat) (a' : StA)
           have := hinv.failTSet s'
           have := hnoch
           inv_close
+        failCSet := by
+          intro s'
+          have := hinv.diagClear s'
+          have := hinv.failCSet s'
+          have := hnoch
+          inv_close
         carrivedCreq := by
           intro s'
           have := hinv.carrivedCreq s'
@@ -1522,6 +1549,11 @@ theorem invB_begin (c : Cfg) (w : WF c) (st : StB) (s : Nat) (a' : StA)
           intro s'
           have := hinv.diagClear s'
           have := hinv.failTSet s'
+          inv_close
+        failCSet := by
+          intro s'
+          have := hinv.diagClear s'
+          have := hinv.failCSet s'
           inv_close
         carrivedCreq := by
           intro s'
@@ -1751,6 +1783,11 @@ theorem invB_finish (c : Cfg) (w : WF c) (st : StB) (s : Nat) (x : Exit) (pick :
               have := hinv.diagClear s'
               have := hinv.failTSet s'
               inv_close
+            failCSet := by
+              intro s'
+              have := hinv.diagClear s'
+              have := hinv.failCSet s'
+              inv_close
             carrivedCreq := by
               intro s'
               have := hinv.carrivedCreq s'
@@ -1883,6 +1920,11 @@ theorem invB_finish (c : Cfg) (w : WF c) (st : StB) (s : Nat) (x : Exit) (pick :
               intro s'
               have := hinv.diagClear s'
               have := hinv.failTSet s'
+              inv_close
+            failCSet := by
+              intro s'
+              have := hinv.diagClear s'
+              have := hinv.failCSet s'
               inv_close
             carrivedCreq := by
               intro s'
@@ -2050,6 +2092,11 @@ theorem invB_tidyReturn (c : Cfg) (w : WF c) (st st' : StB) (s pick : Nat)
               intro s'
               have := hinv.diagClear s'
               have := hinv.failTSet s'
+              inv_close
+            failCSet := by
+              intro s'
+              have := hinv.diagClear s'
+              have := hinv.failCSet s'
               inv_close
             carrivedCreq := by
               intro s'
@@ -2659,6 +2706,11 @@ theorem invB_sdTimeoutFire (c : Cfg) (w : WF c) (st st' : StB) (s : Nat)
             have := hinv.failTSet s'
             simp only [setAt] at *
             grind [PcB.exitOf]
+          failCSet := by
+            intro s'
+            have := hinv.failCSet s'
+            simp only [setAt] at *
+            grind [PcB.exitOf]
           carrivedCreq := by
             intro s'
             have := hinv.carrivedCreq s'
@@ -2823,6 +2875,42 @@ theorem timesOutFrom_nil (c : Cfg) (s : Nat) (st0 : StB) :
 theorem timesOutFrom_cons (c : Cfg) (s : Nat) (st0 st1 : StB) (e : EvB) (es : List EvB)
     (h : stepB c st0 e = some st1) :
     timesOutFrom c s st0 (e :: es) ↔ st0.pcB s = .tidy .timeout ∨ timesOutFrom c s st1 es := by
+  constructor
+  · rintro ⟨pre, st2, hp, ha, hx⟩
+    cases pre with
+    | nil => simp only [acceptB] at ha; cases ha; exact Or.inl hx
+    | cons e' pre' =>
+      obtain ⟨rfl, hp'⟩ := List.cons_prefix_cons.1 hp
+      simp only [acceptB, h] at ha
+      exact Or.inr ⟨pre', st2, hp', ha, hx⟩
+  · rintro (hx | ⟨pre, st2, hp, ha, hx⟩)
+    · exact ⟨[], st0, List.nil_prefix, rfl, hx⟩
+    · exact ⟨e :: pre, st2, List.cons_prefix_cons.2 ⟨rfl, hp⟩, by simp only [acceptB, h]; exact ha, hx⟩
+
+/-! ### "the run of `s` aborts on a critical failure" as a property of a history
+
+  Mirror image of `timesOut`: some prefix of the history leads to a state where `co_run` of `s` is in the
+  `_tidy_tasks` that follows the detection of a critical failure (`pcB s = .tidy .critical`: a state entered only
+  from `.loop`, by a reaction that finds a critical job that raised, see `ExitB.exit_reason`). -/
+
+def critOutFrom (c : Cfg) (s : Nat) (st0 : StB) (evs : List EvB) : Prop :=
+  ∃ pre st1, pre <+: evs ∧ acceptB c st0 pre = some st1 ∧ st1.pcB s = .tidy .critical
+
+/-- the run of `s` leaves its main loop by a critical failure somewhere in the history `evs` -/
+def critOut (c : Cfg) (s : Nat) (evs : List EvB) : Prop := critOutFrom c s StB.init evs
+
+theorem critOutFrom_nil (c : Cfg) (s : Nat) (st0 : StB) :
+    critOutFrom c s st0 [] ↔ st0.pcB s = .tidy .critical := by
+  constructor
+  · rintro ⟨pre, st1, hp, ha, hx⟩
+    have : pre = [] := List.prefix_nil.1 hp
+    subst this
+    simp only [acceptB] at ha; cases ha; exact hx
+  · intro hx; exact ⟨[], st0, List.nil_prefix, rfl, hx⟩
+
+theorem critOutFrom_cons (c : Cfg) (s : Nat) (st0 st1 : StB) (e : EvB) (es : List EvB)
+    (h : stepB c st0 e = some st1) :
+    critOutFrom c s st0 (e :: es) ↔ st0.pcB s = .tidy .critical ∨ critOutFrom c s st1 es := by
   constructor
   · rintro ⟨pre, st2, hp, ha, hx⟩
     cases pre with
